@@ -29,13 +29,22 @@ def generate(rnd, tier):
         s = gen.gen_ksat(rnd, False, 5, 10, [[":produce-proofs", "true"]])
         s["cmds"].append(["get-proof"])
         return s
+    if r0 > 0.8:
+        s = gen.gen_layered(rnd, tier, [[":produce-proofs", "true"]])
+        cmds = []
+        for c in s["cmds"]:
+            cmds.append(c)
+            if c[0] == "check-sat":
+                cmds.append(["get-proof"])
+        s["cmds"] = cmds
+        return s
     if r0 < 0.45:
         script, _, _ = gen.gen_script(rnd, tier, tracking={"proofs"}, queries=False, planted_p=0.0, engines=False, allow_nonincr=False,
                                       hist_p=0.4, dense_p=1.0, hard=True, big=False,
                                       logic_keys=["QF_LRA", "QF_LIA", "QF_RDL", "QF_IDL", "QF_UF", "QF_UFLRA", "QF_AX", "QF_ALIA"])
     else:
         script, _, _ = gen.gen_script(rnd, tier, tracking={"proofs"}, queries=False, planted_p=0.8, engines=rnd.random() < 0.25,
-                                      allow_nonincr=False, hist_p=0.55, dense_p=0.3)
+                                      allow_nonincr=False, hist_p=0.85, dense_p=0.3, hist_w=(0.4, 0.2, 0.15))
     cmds = []
     for c in script["cmds"]:
         cmds.append(c)
@@ -178,6 +187,7 @@ def check(case, ctx):
         except ProofError as e:
             return viol("malformed-proof: %s" % e, idx)
         bound = {}
+        soft = []
         nres = 0
         frames = frame_ids(script, idx)
         active_ids = [fid for fid, _ in frames]
@@ -258,7 +268,13 @@ def check(case, ctx):
                 if st is None:
                     return viol("missing-or-unreadable-stated-resolvent: %s" % name, idx)
                 if st != res:
-                    return viol("resolvent-differs-from-stated-clause: %s" % name, idx, {"computed": sorted(res), "stated": stated})
+                    if st < res:
+                        # the comment shows the stored clause (literals falsified at the root level already removed), the chain
+                        # keeps them: recorded as its own kind; the replay continues with the *computed* resolvent, so a final
+                        # clause that is not empty is still caught
+                        soft.append(viol("stated-resolvent-omits-literals: %s" % name, idx, {"computed": sorted(res), "stated": stated}))
+                    else:
+                        return viol("resolvent-differs-from-stated-clause: %s" % name, idx, {"computed": sorted(res), "stated": stated})
                 bound[name] = res
         if body not in bound:
             return viol("body-unbound: %s" % body, idx)
@@ -267,6 +283,8 @@ def check(case, ctx):
         for n in core:
             if n not in bound:
                 return viol("core-mentions-unbound-clause: %s" % n, idx)
+        if soft:
+            return soft[0]
         classes.append("proof-ok")
         if nres >= 3 and special:
             nt_key = json.dumps([script["options"], script["logic"], [t for _, ts in frames for t in ts]])
@@ -283,4 +301,9 @@ def _sig_stale_frame(case, res):
     return str(d.get("what", "")).startswith("leaf-of-inactive-level") and any(c[0] == "pop" for c in case["cmds"][:d.get("cmd_index", 0)])
 
 
-SIGNATURES = {"proof-reuses-clause-of-popped-level": _sig_stale_frame}
+def _sig_comment(case, res):
+    return str((res.detail or {}).get("what", "")).startswith("stated-resolvent-omits-literals")
+
+
+SIGNATURES = {"proof-reuses-clause-of-popped-level": _sig_stale_frame,
+              "proof-comment-omits-root-falsified-literals": _sig_comment}
